@@ -148,11 +148,21 @@ def guardDiv (nd : Rat × Rat) : Rat := if nd.2 < 1 / 1000000 then nd.1 else nd.
 def scaleValue (sd : List Rat → Rat) (sc : Scl) (xs : List Rat) (shift : Rat) : Option Rat :=
   (scaleNumDen sd sc xs shift).map guardDiv
 
-/-- `Scale._get_shift_and_scale` on one column of the fitting window.  A column holding a
-string yields no parameters: every named statistic raises `TypeError` on it (caught), and for
-two given numbers the parameters are never applied because only numbers are scaled. -/
+/-- how many values of a window column are not missing (strings included) -/
+def presentCount (w : List Val) : Nat := (w.filter (fun v => !v.isMiss)).length
+
+/-- `Scale._get_shift_and_scale` on one column of the fitting window.
+A window holding a string (mixed-type or string column): every statistic that looks at the values raises
+`TypeError`, which is caught (`none`) — `min/fmean/median` of or negation of strings, `max-min`, `stdev`,
+`abs(v+shift)`, and `iqr` of two or more values (`sorted` / `p75-p25`).  What does NOT look at the values still
+succeeds: a given numeric shift, a given numeric scale, and `iqr` of at most one value (returns 0. without touching
+it, so the scale is 1).  Such parameters are then applied to the numbers of the column only. -/
 def fit (sd : List Rat → Rat) (cfg : Cfg) (w : List Val) : Option (Rat × Rat) :=
-  if w.any Val.isStr then none
+  if w.any Val.isStr then
+    match cfg.shift, cfg.scale with
+    | .num a, .num b => some (a, b)
+    | .num a, .iqr => if presentCount w ≤ 1 then some (a, 1) else none
+    | _, _ => none
   else match shiftValue cfg.shift (nums w) with
     | none => none
     | some sh => match scaleValue sd cfg.scale (nums w) sh with
@@ -219,6 +229,12 @@ def scaleSparse (sd : List Rat → Rat) (cfg : Cfg) (rows : List SCtx) : Except 
   | first :: _ =>
     if cfg.shift ≠ .num 0 then .error .cobaException
     else .ok (rows.map (sparseRow sd cfg first (window cfg.usingN rows)))
+
+/-- the sparse application without the shift check (what runs when the check does not apply) -/
+def scaleSparseRows (sd : List Rat → Rat) (cfg : Cfg) (rows : List SCtx) : List SCtx :=
+  match rows with
+  | [] => []
+  | first :: _ => rows.map (sparseRow sd cfg first (window cfg.usingN rows))
 
 /-- `Scale.filter` on scalar contexts -/
 def scaleScalar (sd : List Rat → Rat) (cfg : Cfg) (rows : List Val) : List Val :=
@@ -366,10 +382,79 @@ def imputeCtxs (st : Stat) (ind : Bool) (u : Option Nat) : Ctxs → Ctxs
 def envImpute (stats : List Stat) (ind : Bool) (u : Option Nat) (c : Ctxs) : Ctxs :=
   stats.foldl (fun c st => imputeCtxs st ind u c) c
 
+/-- number of dense potential keys -/
+def potCount (first : List Val) : Nat := ((List.range first.length).filter (potDense first)).length
+
+/-- the empty-window quirk of the dense path: with `using=0` and two or more potential keys the columns are built by
+`zip(*map(itemgetter(*keys), []))`, which yields NO column, so nothing is fitted and the interactions pass through
+unchanged (with one potential key an empty column is fitted instead) -/
+def denseZeroWindow (cfg : Cfg) (rows : List (List Val)) : Bool :=
+  match rows with
+  | [] => false
+  | first :: _ => (window cfg.usingN rows).isEmpty && decide (2 ≤ potCount first)
+
+def scaleDenseFull (sd : List Rat → Rat) (cfg : Cfg) (rows : List (List Val)) : List (List Val) :=
+  if denseZeroWindow cfg rows then rows else scaleDense sd cfg rows
+
 def scaleCtxs (sd : List Rat → Rat) (cfg : Cfg) : Ctxs → Except Err Ctxs
-  | .dense rows => .ok (.dense (scaleDense sd cfg rows))
+  | .dense rows => .ok (.dense (scaleDenseFull sd cfg rows))
   | .sparse rows => (scaleSparse sd cfg rows).map .sparse
   | .scalar rows => .ok (.scalar (scaleScalar sd cfg rows))
+
+/-- a `Scale` object: statistics configuration and `target`.  The target only gates the sparse-shift check
+(`… and self._target=="context" and self._shift != 0`); whatever the target, it is the CONTEXT that is scaled. -/
+structure ScaleCfg where
+  cfg : Cfg
+  target : String
+
+def scaleFilter (sd : List Rat → Rat) (sc : ScaleCfg) : Ctxs → Except Err Ctxs
+  | .sparse rows =>
+    if sc.target = "context" then (scaleSparse sd sc.cfg rows).map .sparse
+    else .ok (.sparse (scaleSparseRows sd sc.cfg rows))
+  | c => scaleCtxs sd sc.cfg c
+
+/-! ### the argument glue of `Environments.scale` / `Environments.impute` and of the filter constructors
+
+`none` = the keyword was not passed.  Python defaults: `Environments.scale(shift="min", scale="minmax",
+targets="context", using=None)`, `Scale(shift=0, scale="minmax", target="context", using=None)`,
+`Environments.impute(stats="mean", indicator=True, using=None)`, `Impute(stat="mean", indicator=True, using=None)`.
+A single string for `targets` / `stats` is the one-element list. -/
+
+structure ScaleArgs where
+  shift : Option Shift
+  scale : Option Scl
+  targets : Option (List String)
+  usingA : Option (Option Nat)
+
+/-- `Environments.scale(**args)`: one `Scale` filter per target, in order -/
+def envScaleFilters (a : ScaleArgs) : List ScaleCfg :=
+  (match a.targets with | some ts => ts | none => ["context"]).map (fun t =>
+    { cfg := { shift := (match a.shift with | some s => s | none => .min),
+               scale := (match a.scale with | some s => s | none => .minmax),
+               usingN := (match a.usingA with | some u => u | none => none) },
+      target := t })
+
+/-- `Scale(**args)` (direct construction; at most one target) -/
+def scaleCtorCfg (a : ScaleArgs) : ScaleCfg :=
+  { cfg := { shift := (match a.shift with | some s => s | none => .num 0),
+             scale := (match a.scale with | some s => s | none => .minmax),
+             usingN := (match a.usingA with | some u => u | none => none) },
+    target := (match a.targets with | some (t :: _) => t | _ => "context") }
+
+structure ImputeArgs where
+  stats : Option (List Stat)
+  indicator : Option Bool
+  usingA : Option (Option Nat)
+
+/-- `Environments.impute(**args)`: one `Impute` filter per statistic, in order -/
+def envImputeFilters (a : ImputeArgs) : List (Stat × Bool × Option Nat) :=
+  (match a.stats with | some ss => ss | none => [.mean]).map (fun st =>
+    ((st, (match a.indicator with | some b => b | none => true),
+      (match a.usingA with | some u => u | none => (none : Option Nat))) : Stat × Bool × Option Nat))
+
+/-- what `Environments(env).scale(**args)[0].read()` does to the contexts -/
+def envScale (sd : List Rat → Rat) (a : ScaleArgs) (c : Ctxs) : Except Err Ctxs :=
+  (envScaleFilters a).foldl (fun r k => r.bind (scaleFilter sd k)) (.ok c)
 
 /-! ### filter objects and collections of environments
 
